@@ -543,7 +543,7 @@ def run(ctx):
     for t in range(n_st):
         n, k = rng.randint(1, 4), rng.randint(1, 3)
         noise, cross = rng.random() < 0.6, rng.random() < 0.6
-        p = gen_lq(rng, n, k, rng.randint(1, 2), cross, noise, stationary=True)
+        p = gen_lq(rng, n, k, rng.randint(1, 4), cross, noise, stationary=True)
         if p is None:
             ctx.count("stationary:generator_gave_up"); continue
         inp = pinput(p, fn="LQ.stationary_values")
@@ -646,12 +646,166 @@ def run(ctx):
     for i in bad:
         ctx.mismatch("C07.Model.compute_sequence_stationary (NumF) vs LQ.compute_sequence (T=None)", seq_meta[i])
 
+    # ================================================================ operation sequences on one object
+    object_sequences(ctx, qe, thorough, PRE)
     # ================================================================ derived solvers (oracle only)
     derived_checks(ctx, thorough)
     derived_correspondence(ctx, thorough, PRE)
     ctx.notes.append("largest observed/tolerance ratios: %s" % json.dumps({k_: round(v, 6) for k_, v in worst.items()}))
     ctx.trusted += ["mpmath (50 digits) / fractions.Fraction oracle arithmetic",
                     "scripted numpy RandomState subclass for standard_normal; Riccati gamma observed through a sys.setprofile return hook"]
+
+
+# ====================================================================== operation sequences on ONE LQ object
+def exact_update(p, P, d):
+    """one update_values step in exact Fractions (independent of the Coq model): returns (F, P', d')"""
+    A, B, Q, R, N, beta = p["A"], p["B"], p["Q"], p["R"], p["N"], p["beta"]
+    C = Cmat(p)
+    S1 = madd(Q, mscale(beta, mmul(mtr(B), mmul(P, B))))
+    S2 = madd(mscale(beta, mmul(mtr(B), mmul(P, A))), N)
+    F = fsolve(S1, S2)
+    Pn = madd(madd(R, mmul(mtr(S2), F), -1), mscale(beta, mmul(mtr(A), mmul(P, A))))
+    PCC = mmul(P, mmul(C, mtr(C)))
+    dn = beta * (d + sum(PCC[i][i] for i in range(len(PCC))))
+    return F, Pn, dn
+
+
+def exact_horizon(p, T, Rf):
+    """exact finite-horizon rules of THIS (T, Rf): ([F_0..F_{T-1}] in time order, P_0, d_0)"""
+    P, d, Fs = Rf, Fraction(0), []
+    for _ in range(T):
+        F, P, d = exact_update(p, P, d)
+        Fs.append(F)
+    return Fs[::-1], P, d
+
+
+def _rel_f(a, b):
+    a = np.atleast_1d(np.array(a, dtype=float)); b = np.atleast_1d(np.array(b, dtype=float))
+    return float(np.max(np.abs(a - b)) / (1 + np.max(np.abs(b)))) if a.shape == b.shape else float("inf")
+
+
+def object_sequences(ctx, qe, thorough, PRE):
+    """construct one LQ object, then 2-4 of {compute_sequence, update_values, stationary_values}; after every operation
+    compare the object's (P, d) and the paths with (a) the Coq model folded over the same operations and (b) an exact
+    Fraction oracle of what THIS object's (T, Rf) prescribes (state must not leak from one call to the next)."""
+    rng = ctx.rng
+    cases, meta = [], []
+    n_obj = 90 if thorough else 28
+    for t in range(n_obj):
+        finite = rng.random() < 0.65
+        n, k = rng.randint(1, 3), rng.randint(1, 2)
+        noise = rng.random() < 0.7
+        nops = rng.randint(2, 4)
+        if finite:
+            kinds = [rng.choice(["seq", "seq", "update", "stationary" if rng.random() < 0.4 else "seq"]) for _ in range(nops)]
+            if "seq" not in kinds[1:]:
+                kinds[-1] = "seq"            # a compute_sequence AFTER other operations is the point
+        else:
+            kinds = [rng.choice(["stationary", "seq"])] + [rng.choice(["seq", "seq", "update", "stationary"]) for _ in range(nops - 1)]
+            if kinds.count("seq") < 2:
+                kinds += ["seq"]
+        need_st = (not finite) or ("stationary" in kinds)
+        p = gen_lq(rng, n, k, rng.randint(1, 3), rng.random() < 0.5, noise, stationary=need_st,
+                   radius=rng.choice([0.5, 0.9, 1.1]) if need_st else None)
+        if p is None:
+            continue
+        T = rng.randint(1, 5) if finite else None
+        lq = make_lq(qe, p, T=T)
+        jj = p["j"]
+        ops_desc, coq_ops, exps = [], [], []
+        Pex, dex = (p["Rf"], Fraction(0)) if finite else (None, None)
+        gamma, sb = 1.0, float(np.sqrt(float(p["beta"])))
+        ok_case, uses_st = True, False
+        inp_base = pinput(p, fn="LQ object: operation sequence", T=T)
+        for oi, kd in enumerate(kinds):
+            here = dict(inp_base, ops=ops_desc + [kd], failing_op=oi)
+            try:
+                if kd == "update":
+                    lq.update_values()
+                    Fx, Pex, dex = exact_update(p, Pex, dex)
+                    coq_ops.append("OpUpdate"); ops_desc.append("update_values()")
+                    exps.append((np.array(lq.P), float(lq.d), [], []))
+                    dev = max(_rel_f(lq.P, fl(Pex)), _rel_f(lq.d, float(dex)), _rel_f(lq.F, fl(Fx)))
+                    if dev > TOL_ST:
+                        ctx.fail("lq_object_state", "update_values: (P, d, F) is not the update of the object's previous (P, d)", here, [np.array(lq.P).tolist(), float(lq.d)], [fl(Pex), float(dex)])
+                elif kd == "stationary":
+                    (res), rec = riccati_hook(lambda: lq.stationary_values())
+                    gamma = rec.get("gamma", gamma); uses_st = True
+                    coq_ops.append("OpStationary"); ops_desc.append("stationary_values()")
+                    exps.append((np.array(lq.P), float(lq.d), [], []))
+                    Pex, dex = fr2(lq.P), frac(float(lq.d))
+                    Fx, P2, d2 = exact_update(p, Pex, dex)
+                    dev = max(_rel_f(lq.P, fl(P2)), _rel_f(lq.d, float(d2)), _rel_f(lq.F, fl(Fx)))
+                    if dev > TOL_ST:
+                        ctx.fail("lq_object_state", "stationary_values leaves a (P, d, F) on the object that is not a fixed point of the update", here, [np.array(lq.P).tolist(), float(lq.d)], [fl(P2), float(d2)])
+                else:
+                    x0 = [rnd_frac(rng) for _ in range(n)]
+                    if finite:
+                        ts = rng.choice([None, None, T, max(1, T - 1), T + 2]); Te = T if not ts else min(ts, T)
+                    else:
+                        ts = rng.randint(1, 5); Te = ts
+                    script = [[rng.randint(-8, 8) / 4.0 for _ in range(Te + 1)] for _ in range(jj)]
+                    first_inf = (not finite) and lq.P is None
+                    if first_inf:
+                        (out), rec = riccati_hook(lambda: lq.compute_sequence(np.array([float(v) for v in x0]), ts_length=ts, random_state=Scripted(script)))
+                        gamma = rec.get("gamma", gamma); uses_st = True
+                        Pex, dex = fr2(lq.P), frac(float(lq.d))
+                    else:
+                        out = lq.compute_sequence(np.array([float(v) for v in x0]), ts_length=ts, random_state=Scripted(script))
+                    xp, up, wp = out
+                    ws = [[script[a][s_] for a in range(jj)] for s_ in range(1, Te + 1)]
+                    coq_ops.append("OpSequence %s %s %s" % (natlit(Te), flist([float(v) for v in x0]), flist2(ws)))
+                    ops_desc.append("compute_sequence(x0=%s, ts_length=%s)" % ([str(v) for v in x0], ts))
+                    exps.append((np.array(lq.P), float(lq.d), xp.T.tolist(), up.T.tolist()))
+                    here = dict(here, ops=ops_desc, x0=x0, w=script, ts_length=ts)
+                    # ---- oracle: rules and state THIS object prescribes
+                    if finite:
+                        Ft, Pex, dex = exact_horizon(p, Te, p["Rf"])
+                        Ft = [npf(F_) for F_ in Ft]
+                    else:
+                        Ft = [np.array(lq.F)] * Te
+                    An, Bn, Cn = npf(p["A"]), npf(p["B"]), npf(Cmat(p))
+                    bad = xp.shape != (n, Te + 1) or up.shape != (k, Te)
+                    worst_dev = 0.0
+                    if not bad:
+                        for s_ in range(Te):
+                            sc = 1 + np.max(np.abs(xp[:, s_ + 1])) + np.max(np.abs(up[:, s_]))
+                            worst_dev = max(worst_dev, np.max(np.abs(up[:, s_] + Ft[s_] @ xp[:, s_])) / sc,
+                                            np.max(np.abs(xp[:, s_ + 1] - (An @ xp[:, s_] + Bn @ up[:, s_] + Cn @ np.array(script)[:, s_ + 1]))) / sc)
+                    if bad or worst_dev > TOL_ST or np.max(np.abs(xp[:, 0] - np.array([float(v) for v in x0]))) > 0:
+                        ctx.fail("lq_object_sequence", "compute_sequence on a used object: u_t = -F_t x_t fails for the rules of this object's own (T, Rf) / dynamics violated",
+                                 here, {"x_path": xp.tolist(), "u_path": up.tolist()}, {"F_t": [F_.tolist() for F_ in Ft]})
+                    dev = max(_rel_f(lq.P, fl(Pex)), _rel_f(lq.d, float(dex)))
+                    if dev > TOL_ST:
+                        ctx.fail("lq_object_state", "compute_sequence leaves a (P, d) on the object that is not (P_0, d_0) of its own horizon", here,
+                                 [np.array(lq.P).tolist(), float(lq.d)], [fl(Pex), float(dex)])
+            except Exception as e:     # noqa
+                ctx.fail("lq_object_raises", "operation %d (%s) raises" % (oi, kd), here, repr(e), None)
+                ok_case = False
+                break
+        ctx.count("object:%s" % ("finite" if finite else "infinite")); ctx.count("object:ops=%s" % ",".join(k_[:3] for k_ in kinds))
+        ctx.case(("object", finite, T, str(p), str(ops_desc)), nontrivial=True)
+        if not ok_case:
+            continue
+        tolname = "STOL" if uses_st else "VTOL"
+        exp_l = "[" + "; ".join(tup(flist2(np.atleast_2d(P_).tolist()), f1(d_), flist2(X_) if X_ else "(@nil (list float))",
+                                     flist2(U_) if U_ else "(@nil (list float))") for (P_, d_, X_, U_) in exps) + "]"
+        cases.append(tup(tup(*coq_params_f(p)), ("(Some %s)" % flist2(fl(p["Rf"]))) if finite else "(@None (list (list float)))",
+                         f1(gamma), f1(sb), tolname, "[" + "; ".join(coq_ops) + "]", exp_l))
+        meta.append(dict(inp_base, ops=ops_desc))
+    pre = PRE + ("Fixpoint all2h {A B} (p : A -> B -> bool) (a : list A) (b : list B) : bool :=\n"
+                 "  match a, b with [], [] => true | x :: a', y :: b' => p x y && all2h p a' b' | _, _ => false end.\n")
+    ok = ("fun c => let '(p, hor, gamma, sb, tol, ops, exps) := c in " + PLET +
+          "match lq_run n k j beta Q R A B C N hor RTOL RMAX gamma sb (hor, 0%float, None) ops with "
+          "| Some res => all2h (fun (r : lq_state * lq_out) (e : list (list float) * float * list (list float) * list (list float)) => "
+          "    let '(st, out) := r in let '(P', d', _) := st in let '(Pe, de, X, U) := e in "
+          "    match P' with Some P1 => Fss_close tol P1 Pe && Fclose tol d' de | None => false end && "
+          "    match out with OutPaths xs us => Fss_close tol xs X && Fss_close tol us U | OutNone => true end) res exps "
+          "| None => false end")
+    ty = "(%s) * option (list (list float)) * float * float * float * list lq_op * list (list (list float) * float * list (list float) * list (list float))" % PTY_F
+    bad = ctx.coq_check("lq_object_operations_float", IMPORTS, ty, ok, cases, chunk=4, preamble=pre)
+    for i in bad:
+        ctx.mismatch("C07.Model.lq_run (fold of lq_apply over the operations, NumF) vs the same calls on one LQ object", meta[i])
 
 
 # ====================================================================== derived solvers: RBLQ, nnash, LQMarkov (oracle only)
@@ -1526,6 +1680,16 @@ def replay(data):
     p = {key: conv(inp.get(key)) for key in ("A", "B", "Q", "R", "N", "C", "Rf")}
     p.update(n=inp["n"], k=inp["k"], j=inp["j"], beta=Fraction(str(inp["beta"])))
     T = inp.get("T")
+    if "ops" in inp and T:
+        # state leak demonstration: two compute_sequence calls on one finite-horizon object must leave the same (P, d)
+        lqo = make_lq(qe, p, T=T)
+        x0 = np.ones(p["n"])
+        _Ft, Pex, dex = exact_horizon(p, T, p["Rf"])
+        for call in (1, 2):
+            lqo.compute_sequence(x0, random_state=Scripted(np.zeros((p["j"], T + 1))))
+            print("after compute_sequence call %d: P =" % call, np.array(lqo.P).tolist(), "d =", float(lqo.d),
+                  "| exact (P_0, d_0) of this (T, Rf):", fl(Pex), float(dex))
+        return 0
     if T:
         lq = make_lq(qe, p, T=T)
         for s in range(T):
